@@ -51,7 +51,7 @@ CATALOGUE = [
     "dup-name", "message-size", "max-bytes", "alias-named", "forbidden-in-message", "forbidden-in-enum",
     "option-unknown", "option-type", "option-scope", "undefined-type", "use-before-decl", "const-as-type",
     "type-as-const", "nonint-capacity", "cyclic-import", "duplicate-import", "import-name-taken",
-    "extensible-in-traditional", "nonint-calc", "undefined-constant",
+    "extensible-in-traditional", "nonint-calc", "undefined-constant", "importer-name-leak",
 ]
 
 
@@ -313,13 +313,15 @@ def inject(prog, rule, rng):
     if rule in ("cyclic-import", "duplicate-import", "import-name-taken"):
         names = list(p["files"])
         if rule == "cyclic-import":
+            # the path of the closing import may be spelled differently from the one already being parsed
+            spell = rng.choice(["", "", "./", "././"])
             if len(names) >= 2 and rng.random() < 0.7:
                 lib = [n for n in names if n != p["main"]][0]
-                p["files"][lib].insert(1, {"d": "import", "file": p["main"], "as": None})
-                return p, "lib imports main"
+                p["files"][lib].insert(1, {"d": "import", "file": p["main"], "as": None, "spell": spell})
+                return p, "lib imports main%s" % (" as %s" % spell if spell else "")
             f = rng.choice(names)
-            p["files"][f].insert(1, {"d": "import", "file": f, "as": rng.choice([None, "selfie"])})
-            return p, "self import"
+            p["files"][f].insert(1, {"d": "import", "file": f, "as": rng.choice([None, "selfie"]), "spell": spell})
+            return p, "self import%s" % (" as %s" % spell if spell else "")
         if len(names) < 2:
             return None
         main = p["files"][p["main"]]
@@ -338,6 +340,50 @@ def inject(prog, rule, rng):
             {"d": "message", "name": nm, "ext": False, "body": []}
         main.insert(imps[0], item)
         return p, "import name already used by a %s" % kind
+    if rule == "importer-name-leak":
+        # an imported file uses a name that only its IMPORTER can see: one the importer declares above the import
+        # line, or the name of a sibling import.  Each file resolves names in its own scopes only.
+        main = p["files"][p["main"]]
+        how = rng.choice(["type", "const", "message", "sibling"])
+        if how == "sibling":
+            if len(p["files"]) < 2 or p.get("rtype") is None:
+                how = "type"
+            else:
+                old_main = p["main"]
+                lib = [f for f in p["order"] if f != old_main][0]
+                top = p["top"]
+                p = gen.wrap_diamond(p, random.Random(rng.random()))
+                app = p["files"][p["main"]]
+                imps = [d for d in app if d["d"] == "import"]
+                imps.sort(key=lambda d: 0 if d["file"] == old_main else 1)      # the old main file first
+                p["files"][p["main"]] = [d for d in app if d["d"] == "proto"] + imps + \
+                    [d for d in app if d["d"] not in ("proto", "import")]
+                p["files"][lib] = list(p["files"][lib]) + [
+                    {"d": "message", "name": "ZzUser", "ext": False,
+                     "body": [{"d": "field", "name": "t", "num": 1, "t": gen.tref([old_main, top])}]}]
+                p.pop("rtype", None)
+                return p, "the imported file uses the name of a sibling import"
+        _ensure_lib(p)
+        main = p["files"][p["main"]]
+        if not any(d["d"] == "import" and d["file"] == "zzlib" for d in main):
+            pi = [i for i, d in enumerate(main) if d["d"] == "proto"][0]
+            main.insert(pi + 1, {"d": "import", "file": "zzlib", "as": None})
+        ii = [i for i, d in enumerate(main) if d["d"] == "import" and d["file"] == "zzlib"][0]
+        lib = p["files"]["zzlib"]
+        if how == "type":
+            main.insert(ii, {"d": "alias", "name": "ZzLeakT", "t": {"k": "uint", "n": 7}})
+            lib.append({"d": "message", "name": "ZzUser", "ext": False,
+                        "body": [{"d": "field", "name": "x", "num": 1, "t": gen.tref(["ZzLeakT"])}]})
+        elif how == "message":
+            main.insert(ii, {"d": "message", "name": "ZzLeakM", "ext": False,
+                             "body": [{"d": "field", "name": "b", "num": 1, "t": {"k": "bool"}}]})
+            lib.append({"d": "alias", "name": "ZzArr", "t": {"k": "array", "elem": gen.tref(["ZzLeakM"]),
+                                                             "cap": gen.lit(2), "ext": False}})
+        else:
+            main.insert(ii, {"d": "const", "name": "ZZ_LEAK", "v": gen.lit(3)})
+            lib.append({"d": "alias", "name": "ZzArr", "t": {"k": "array", "elem": {"k": "bool"},
+                                                             "cap": {"e": "ref", "path": ["ZZ_LEAK"]}, "ext": False}})
+        return p, "the imported file uses a %s its importer declares above the import line" % how
     if rule == "extensible-in-traditional":
         return p, "traditional mode"
     raise KeyError(rule)
